@@ -13,7 +13,7 @@ import math
 import re
 
 from checks.common import np, pd
-from mc import vpool
+from mc import tlcpool, vpool
 from mc.engine import Exc, digest
 from models import segments as M
 
@@ -568,6 +568,7 @@ def run_schedules(case, ctx):
     tdig = digest(rows)
     n = 0
     labels = []
+    explored = set()
 
     def once(prefix):
         s = vpool.Scheduler(prefix)
@@ -580,6 +581,7 @@ def run_schedules(case, ctx):
     for trace, (res, pools) in vpool.explore_part(once, tuple(case["part"]), 3):
         n += 1
         labels = [t[2] for t in trace]
+        explored.add(tuple(labels))
         choices = [t[1] for t in trace]
         ctx.state(("schedule", tdig, method, workers, tuple(choices)), nontrivial=any(choices))
         if pools == 0:
@@ -594,6 +596,19 @@ def run_schedules(case, ctx):
                 observed=canon[:12],
                 sub={"method": method, **cfg, **sub},
             )
+    if case["part"][1] == 1:
+        # the whole schedule tree was explored in this case: it must be exactly the behaviour set TLC enumerates for the
+        # TLA+ model of the executor contract (models/tla/PoolMap.tla) - every model trace replayed on the implementation
+        model, stats = tlcpool.schedules(case["tasks"], workers)
+        if model == explored:
+            ctx.stratum("tlc-behaviours-replayed-on-implementation", len(model))
+            ctx.sample(f"tlc-K{case['tasks']}-W{workers}", {"tlc": stats, "explored_schedules": len(explored), "sets_equal": True})
+        else:
+            ctx.caps.append(
+                "TLC conformance not established for %s k=%d w=%d: %d behaviours only in the model, %d schedules only explored"
+                % (method, case["tasks"], workers, len(model - explored), len(explored - model))
+            )
+            ctx.stratum("tlc-model-mismatch")
     ctx.stratum(f"schedules-{method}-k{case['tasks']}-w{workers}", n)
     ctx.sample(f"schedules-k{case['tasks']}", {"table": case["table"], "method": method, "workers": workers, "tasks": case["tasks"], "schedules_in_part": n, "last": labels})
 
@@ -614,5 +629,5 @@ MANIFEST = {
     "executor's contract (mc/vpool.py). Not covered: cbs / flasso (need R), chromosomes beyond 400 bins, VCF-driven re-segmentation, "
     "tables without a weight or depth column, gene names containing commas.",
     "technique": "exhaustive enumeration of bin tables x option combinations on the real code against a clause-wise reference model + "
-    "stateless schedule enumeration (choice-sequence DFS over a virtual process pool)",
+    "stateless schedule enumeration (choice-sequence DFS over a virtual process pool), cross-validated against TLC's enumeration of a TLA+ model of the executor contract",
 }
